@@ -74,7 +74,7 @@ package layout
 // every fragment of every group ends up in exactly one Line
 //@ func (*LineDetector) buildLines results (res)
 //@   property C09
-//@   flags readonly, nosafety
+//@   flags readonly
 //@   ensures conserved: linesum(res, len(res)) == lsum(lineGroups, len(lineGroups))
 //@   loop 0:
 //@     invariant linesum(lines, len(lines)) == lsum(lineGroups, $i)
@@ -107,7 +107,6 @@ package layout
 // fragment's trimmed text, that distance and the index of ITS page; nothing else is touched.
 //@ func (*HeaderFooterDetector) extractCandidates results (res)
 //@   property C11
-//@   flags nosafety
 //@   loop 2:
 //@     step band_test_decides: let dist = (regionType == Header ? (invertedCoords ? frag.Y - refMinY : refMaxY - (frag.Y + frag.Height)) : (invertedCoords ? refMaxY - (frag.Y + frag.Height) : frag.Y - refMinY)) in let band = (regionType == Header ? headerRegion : footerRegion) in (len(candidates) == prev(len(candidates)) + 1 <==> dist < band) && (len(candidates) == prev(len(candidates)) <==> !(dist < band))
 //@     step candidate_is_this_fragment_on_this_page: len(candidates) == prev(len(candidates)) + 1 ==> candidates[prev(len(candidates))].PageIndex == page.PageIndex && sameseq(candidates[prev(len(candidates))].Text, strings.TrimSpace(frag.Text)) && candidates[prev(len(candidates))].X == frag.X && candidates[prev(len(candidates))].Width == frag.Width
@@ -120,13 +119,11 @@ package layout
 
 //@ func (*BlockDetector) mergeBlocks results (m)
 //@   property C09
-//@   flags nosafety
 //@   ensures fragments_of_both: wsum(m.Fragments, len(m.Fragments)) == wsum(b1.Fragments, len(b1.Fragments)) + wsum(b2.Fragments, len(b2.Fragments))
 
 // every input block ends up in exactly one output block: the outputs carry the weight of all inputs
 //@ func (*BlockDetector) mergeOverlappingBlocks results (res)
 //@   property C09
-//@   flags nosafety
 //@   ensures conserved: blocksum(res, len(res)) == blocksum(blocks, len(blocks))
 //@   loop 0:
 //@     invariant 0 <= i && i <= len(blocks) && len(used) == len(blocks)
@@ -142,7 +139,6 @@ package layout
 // minOccurrences (>= 2) members, and it lists exactly those pages.
 //@ func (*HeaderFooterDetector) findRepeatingPatterns results (res)
 //@   property C11
-//@   flags nosafety
 //@   loop 1:
 //@     invariant minOccurrences >= 2
 //@     step region_needs_enough_distinct_pages: len(regions) == prev(len(regions)) + 1 ==> len(pageSet) >= minOccurrences
@@ -155,7 +151,7 @@ package layout
 // ---- C09: block detection stages ----
 //@ func (*BlockDetector) groupIntoLines results (res)
 //@   property C09
-//@   flags readonly, nosafety, noalias
+//@   flags readonly, noalias
 //@   ensures conserved: lsum(res, len(res)) == wsum(fragments, len(fragments))
 //@   loop 0:
 //@     invariant lsum(lines, len(lines)) + wsum(currentLine, len(currentLine)) == wsum(sorted, $i)
@@ -164,7 +160,6 @@ package layout
 
 //@ func (*BlockDetector) finalizeBlock results (res)
 //@   property C09
-//@   flags nosafety
 //@   ensures collects_every_line: wsum(res.Fragments, len(res.Fragments)) == wsum(old(block.Fragments), len(old(block.Fragments))) + lsum(old(block.Lines), len(old(block.Lines)))
 //@   ensures lines_kept: same(res.Lines, old(block.Lines))
 //@   loop 0:
@@ -173,7 +168,7 @@ package layout
 // every line goes into exactly one block
 //@ func (*BlockDetector) groupLinesIntoBlocks results (res)
 //@   property C09
-//@   flags nosafety, noalias
+//@   flags noalias
 //@   ensures conserved: blocksum(res, len(res)) == lsum(lines, len(lines))
 //@   loop 0:
 //@     invariant 1 <= i && i <= len(lines) && len(currentBlock.Fragments) == 0
@@ -183,7 +178,6 @@ package layout
 // validation only drops blocks: what it keeps is what it was given, minus blocks without fragments or below the minimum size
 //@ func (*BlockDetector) validateBlocks results (res)
 //@   property C09
-//@   flags nosafety
 //@   ensures conserved: blocksum(res, len(res)) == blocksum(blocks, len(blocks))
 //@   loop 0:
 //@     invariant blocksum(valid, len(valid)) == blocksum(blocks, $i)
@@ -195,12 +189,11 @@ package layout
 
 //@ func (*ParagraphDetector) buildParagraph results (res)
 //@   property C09
-//@   flags nosafety
 //@   ensures holds_exactly_its_lines: linesum(res.Lines, len(res.Lines)) == linesum(lines, len(lines))
 
 //@ func (*ParagraphDetector) groupIntoParagraphs results (res)
 //@   property C09
-//@   flags nosafety, noalias
+//@   flags noalias
 //@   ensures conserved: parasum(res, len(res)) == linesum(lines, len(lines))
 //@   loop 0:
 //@     invariant parasum(paragraphs, len(paragraphs)) + linesum(currentLines, len(currentLines)) == linesum(lines, $i)
@@ -208,7 +201,6 @@ package layout
 // re-sorting lines for reading order only permutes them and recomputes spacing
 //@ func reorderLinesByY results (res)
 //@   property C09
-//@   flags nosafety
 //@   ensures conserved: linesum(res, len(res)) == linesum(lines, len(lines)) && len(res) == len(lines)
 //@   loop 0:
 //@     invariant len(result) == len(lines) && linesum(result, len(result)) == linesum(lines, len(lines))
@@ -267,12 +259,10 @@ package layout
 //@   flags inline
 //@ func (*ParagraphDetector) Detect results (res)
 //@   property C09
-//@   flags nosafety
 //@   ensures conserved: !isnil(res) && parasum(res.Paragraphs, len(res.Paragraphs)) == linesum(lines, len(lines))
 //@ spec rec prefix func secsum(ss []ReadingSection, n int) int = n <= 0 ? 0 : secsum(ss, n - 1) + linesum(ss[n-1].Lines, len(ss[n-1].Lines))
 //@ func (*ReadingOrderResult) GetParagraphs results (res)
 //@   property C09
-//@   flags nosafety
 //@   ensures conserved_over_sections: !isnil(r) && len(r.Lines) > 0 && len(r.Sections) > 1 ==> !isnil(res) && parasum(res.Paragraphs, len(res.Paragraphs)) == secsum(r.Sections, len(r.Sections))
 //@   ensures conserved_single_section: !isnil(r) && len(r.Lines) > 0 && len(r.Sections) <= 1 ==> !isnil(res) && parasum(res.Paragraphs, len(res.Paragraphs)) == linesum(r.Lines, len(r.Lines))
 //@   loop 0:
@@ -315,3 +305,22 @@ package layout
 //@ func (*ListDetector) groupIntoLists
 //@   property C09
 //@   flags frameonly, noalias
+
+// ---- C11: a group of repeated marginal lines counts as page numbers only if its numbers really step by one somewhere:
+// at least half of them (and at least one) follow their predecessor by exactly 1 - the same number twice is no sequence ----
+//@ func containsPageNumberPattern results (r)
+//@   property C11
+//@   atreturn#3 needs_a_real_sequence: $ret0 ==> sequential >= 1 && 2 * sequential >= len(numbers) - 1
+//@   loop 0:
+//@     invariant true
+//@   loop 2:
+//@     invariant 1 <= i && 0 <= sequential && sequential <= i - 1
+
+// ---- C09: the box of a list covers every one of its items (the analyzer drops the paragraphs a list was built from by
+// overlap with this box: a box that misses an item leaves that item's text in the output twice) ----
+//@ spec func boxCovers(b model.BBox, c model.BBox) bool = b.X <= c.X && c.X + c.Width <= b.X + b.Width && b.Y <= c.Y && c.Y + c.Height <= b.Y + b.Height
+//@ func (*ListDetector) calculateListBBox results (res)
+//@   property C09
+//@   ensures covers_every_item: forall k int :: {items[k]} 0 <= k && k < len(items) ==> boxCovers(res, items[k].BBox)
+//@   loop 0:
+//@     invariant forall k int :: {items[k]} 0 <= k && k <= $i && k < len(items) ==> boxCovers(bbox, items[k].BBox)
